@@ -176,7 +176,11 @@ def serialize_schema(dataframe_schema):
         "columns": columns,
         "checks": checks,
         "index": index,
-        "dtype": dataframe_schema.dtype,
+        "dtype": (
+            None
+            if dataframe_schema.dtype is None
+            else str(dataframe_schema.dtype)
+        ),
         "coerce": dataframe_schema.coerce,
         "strict": dataframe_schema.strict,
         "name": dataframe_schema.name,
@@ -597,7 +601,11 @@ def to_script(dataframe_schema, path_or_buf=None):
         columns=column_str,
         checks=_format_checks(statistics["checks"]),
         index=index,
-        dtype=dataframe_schema.dtype,
+        dtype=(
+            None
+            if dataframe_schema.dtype is None
+            else _get_dtype_string_alias(dataframe_schema.dtype)
+        ),
         coerce=dataframe_schema.coerce,
         strict=dataframe_schema.strict.__repr__(),
         name=dataframe_schema.name.__repr__(),
